@@ -1,5 +1,6 @@
 import PsV.Proofs.ConvSpec
 import PsV.Proofs.ConvEval
+import PsV.Proofs.ConvDriver
 /-!
 # C14 — convolution produces the true convolution with the unit-area kernel spline
 
@@ -374,5 +375,18 @@ theorem conv_knots_canonical (ks ck l : List Rat) (hp : l.Perm (pairSums ks ck))
 example : sortKnots (pairSums ([0, 1] : List Rat) [0, 1]) = [0, 1, 1, 2] :=
   conv_knots_canonical [0, 1] [0, 1] [0, 1, 1, 2]
     (by simp [pairSums, Arith.add]; norm_num) (by decide)
+
+/-! ## what the driver prints as "exact value of the model's table" -/
+
+/-- the exact value the C14 driver computes for the table produced by the exact model (`evalExact`, a memoised
+Cox–de Boor table) is `ConvSpec.evalTable`: the sum over all stored coefficients against the shared specification -/
+theorem driver_eval_is_table_value (R : CTable Rat) (xs : List Rat)
+    (hn : ∀ d ∈ R.dims, d.naxes = d.nknots - d.order - 1) :
+    Driver.C14.evalExact R xs = ConvSpec.evalTable R xs :=
+  evalExact_eq_evalTable R xs hn
+
+example : Driver.C14.evalExact (⟨[⟨1, 4, 2, 1, [0, 1, 2, 4], 0, 4⟩], #[1, 2]⟩ : CTable Rat) [3/2] =
+    ConvSpec.evalTable ⟨[⟨1, 4, 2, 1, [0, 1, 2, 4], 0, 4⟩], #[1, 2]⟩ [3/2] :=
+  driver_eval_is_table_value _ _ (by intro d hd; simp at hd; subst hd; rfl)
 
 end PsV
